@@ -253,38 +253,45 @@ def c15_visual_stage(chk):
         if clause in seen:
             continue
         seen.add(clause)
-        c = cases[i]
+        try:
+            c = cases[i]
 
-        def run_until(line, clause=clause, tries=4):
-            """a batch is a HashMap scene -> observations: the position of a scene inside a batch (what a position-dependent
-            defect looks at) may change from run to run, so a failure is looked for in a few runs"""
-            last = None
-            for _ in range(tries):
-                cs = run_lines([line])
-                if not cs:
-                    continue
-                last = cs
-                if any(k == clause for k, _, _ in oracle_case(cs[0])[0]):
-                    return cs, True
-            return last, False
+            def run_until(line, clause=clause, tries=4):
+                """a batch is a HashMap scene -> observations: the position of a scene inside a batch (what a position-dependent
+                defect looks at) may change from run to run, so a failure is looked for in a few runs"""
+                last = None
+                for _ in range(tries):
+                    cs = run_lines([line])
+                    if not cs:
+                        continue
+                    last = cs
+                    if any(k == clause for k, _, _ in oracle_case(cs[0])[0]):
+                        return cs, True
+                return last, False
 
-        def fails(line):
-            return run_until(line)[1]
-        small = shrink(c["spec"]["line"], fails, budget=60)
-        cs, _ = run_until(small, tries=8)
-        f2 = [x for x in (oracle_case(cs[0])[0] if cs else []) if x[0] == clause]
-        detail = []
-        for call in (cs[0]["calls"] if cs else []):
-            detail.append({"scene": call["scene"], "status": call["status"], "panic_at": call.get("panic_loc"),
-                           "boxes (uid, expected share, stored share)": [(d["uid"], None if d["own"] is None else round(float(d["own"]), 5),
-                                                                          None if call["share"].get(d["uid"], {}).get("bits") is None else round(float(f32_bits_to_fraction(call["share"][d["uid"]]["bits"])), 5))
-                                                                         for d in call["dets"]]})
-        key = GEO_KEY if clause == "geo" else "C15:visual:" + clause
-        chk.violation(key, (f2 or f)[0][2],
-                      {"stage": "visual_c15", "input": small, "tracker": c["spec"]["trk"], "clause": clause,
-                       "oracle_failures": [list(x) for x in (f2 or f)[:6]], "calls": detail,
-                       "other_failing_histories": len(failing) - 1,
-                       "replay_cmd": "./check C15 --replay <this file>   (runs: visual replay15 --file <spec>)"})
+            def fails(line):
+                return run_until(line)[1]
+            small = shrink(c["spec"]["line"], fails, budget=60)
+            cs, _ = run_until(small, tries=8)
+            f2 = [x for x in (oracle_case(cs[0])[0] if cs else []) if x[0] == clause]
+            detail = []
+            for call in (cs[0]["calls"] if cs else []):
+                detail.append({"scene": call["scene"], "status": call["status"], "panic_at": call.get("panic_loc"),
+                               "boxes (uid, expected share, stored share)": [(d["uid"], None if d["own"] is None else round(float(d["own"]), 5),
+                                                                              None if call["share"].get(d["uid"], {}).get("bits") is None else round(float(f32_bits_to_fraction(call["share"][d["uid"]]["bits"])), 5))
+                                                                             for d in call["dets"]]})
+            key = GEO_KEY if clause == "geo" else "C15:visual:" + clause
+            chk.violation(key, (f2 or f)[0][2],
+                          {"stage": "visual_c15", "input": small, "tracker": c["spec"]["trk"], "clause": clause,
+                           "oracle_failures": [list(x) for x in (f2 or f)[:6]], "calls": detail,
+                           "other_failing_histories": len(failing) - 1,
+                           "replay_cmd": "./check C15 --replay <this file>   (runs: visual replay15 --file <spec>)"})
+        except Exception as ex:      # the shrinker / re-run must never take the check down: report the unshrunk history
+            import traceback
+            line0 = cases[i]["spec"]["line"] if "spec" in cases[i] else cases[i].get("line")
+            chk.violation("C15:visual:" + clause, what0,
+                          {"stage": "visual_c15", "input": line0, "clause": clause, "oracle_failures": [list(x) for x in f[:6]],
+                           "note": "not shrunk: " + traceback.format_exc()[-800:]})
         if len(seen) >= 3:
             break
 
